@@ -200,6 +200,12 @@ def run(ctx):
                 if rng.random() < .5:
                     en.eLiterals.append(lit)
                     hist.append(f're-add {lit.name}')
+        # a literal may carry a `literal` text beside its name (Eclipse-authored metamodels do: name HIGH, literal
+        # 'high priority'); the name is what is written and read
+        for lit in list(en.eLiterals):
+            if rng.random() < .3:
+                lit.literal = rng.choice(['high priority', lit.name.lower(), '', 'x y', lit.name])
+                hist.append(f'{lit.name}.literal = {lit.literal!r}')
         ctx.count('enum/history-steps', len(hist))
         for lit in en.eLiterals:
             ctx.evaluations += 1
